@@ -211,7 +211,7 @@ func TestVerifDifferential(t *testing.T) {
 		"crafted:hint-permuted", "crafted:hint-duplicated", "crafted:hint-padding-nonzero",
 		"crafted:hint-count-gt-omega", "crafted:z-at-bound-pos", "crafted:z-below-bound-neg",
 		"crafted:trailing-bytes", "crafted:truncated", "crafted:ctilde-altered")
-	lib.Mandatory("rej-ct0", "crafted-sk-match", "hint-weight=omega:accepted", "hint-weight=omega+1:rejected")
+	lib.Mandatory("rej-ct0", "crafted-sk-match", "crafted-rho-signed", "hint-weight=omega:accepted", "hint-weight=omega+1:rejected")
 	lib.Mandatory("z-norm-max-valid:accepted-by-spec", "z-norm-at-bound:rejected-by-spec")
 	nk := lib.Scale(4, 20)
 	nm := lib.Scale(40, 200)
@@ -520,7 +520,58 @@ func craftedT0Tasks() (tasks []func()) {
 		i := i
 		tasks = append(tasks, func() { craftedT0(impls[i%len(impls)], i/len(impls)) })
 	}
+	for _, im := range impls {
+		im := im
+		tasks = append(tasks, func() { craftedRho(im) })
+	}
 	return
+}
+
+// craftedRho: private-key encodings whose rho is a constant octet string
+// (all zeros - what a zero-valued key object holds before anything is decoded
+// into it - all ones, 0x01 0x00..): the matrix A is ExpandA(rho) for THAT
+// rho, so the signatures are the reference's for the encoding as given.
+func craftedRho(im *impl) {
+	const mon = "TestVerifDifferential/CraftedRho"
+	p := im.p
+	r := lib.NewRng("c04/rho/"+p.Name, 0)
+	_, skb0 := p.KeyGen(r.Bytes(32))
+	zero := make([]byte, 32)
+	for vi, fill := range []func(b []byte){
+		func(b []byte) { copy(b, make([]byte, 32)) },
+		func(b []byte) {
+			for i := range b {
+				b[i] = 0xFF
+			}
+		},
+		func(b []byte) { copy(b, make([]byte, 32)); b[0] = 1 },
+	} {
+		skb := lib.Clone(skb0)
+		fill(skb[:32])
+		skObj, err := im.unpackSK(skb)
+		if err != nil {
+			viol(im, mon, "unpack-own-key-failed", "rho-constant", "sk", skb)
+			continue
+		}
+		for m := 0; m < 3; m++ {
+			msg := r.Bytes(r.Intn(60))
+			ctx := genCtx(r, p)
+			mp, _ := p.MPrime(ctx, msg)
+			var st mldsa.SignStats
+			want := p.SignInternal(skb, mp, zero, &st)
+			lib.Case([]byte("crafted-rho"), []byte(p.Name), []byte{byte(vi)}, ctx, msg)
+			var got []byte
+			if pan := lib.Try("SignTo-crafted-rho:"+p.Name, skb, func() { got, _ = im.sign(skObj, msg, ctx, false) }); pan != nil {
+				viol(im, mon, "sign-failed", "crafted-sk-rho-constant", "sk", skb, "msg", msg, "ctx", ctx, "panic", pan.Value)
+				break
+			}
+			lib.Count("crafted-rho-signed")
+			if !lib.Eq(got, want) {
+				viol(im, mon, "signature-mismatch", "crafted-sk-rho-constant", "sk", skb, "rho", skb[:32], "msg", msg, "ctx", ctx, "circl", got, "fips204", want)
+				break
+			}
+		}
+	}
 }
 
 func craftedT0(im *impl, k int) {
